@@ -90,6 +90,42 @@ def rule_iteration(chk, prog, tier):
     r.exhaustive = True
 
 
+def rule_key_lifetime(chk, prog, tier):
+    r = chk.rule('C20.h', 'a hash table borrows its key bytes (mapput stores the pointer, not a copy): storage that is entered as a key through a structure member - the bytes of a string literal in the string table, a macro\'s name, '
+                 'a declaration\'s name - is never released, so whether two equal strings share one definition cannot depend on what the allocator did with freed memory', floor=3)
+    borrowed = {}
+    def memkey(m):
+        # translation units number their declarations independently: a member is identified by its name and the record it belongs to (anonymous records carry their header position)
+        bt = children(m)[0].get('type', {}).get('qualType', '').replace('const ', '').rstrip(' *')
+        return (bt, m.get('name'))
+    for fn in prog.all_funcs():
+        calls = [c for c in walk(fn) if c.get('kind') == 'CallExpr']
+        if not any(callee_name(c) == 'mapput' for c in calls): continue
+        for c in calls:
+            if callee_name(c) != 'mapkey': continue
+            src = unwrap_all(children(c)[2])
+            if src.get('kind') == 'MemberExpr' and src.get('referencedMemberDecl'):
+                borrowed[memkey(src)] = ('%s:%s' % (fn['_file'], c.get('line') or fn.get('line')), fn['name'], src.get('name'))
+    if not any(n == 'data' for _, _, n in borrowed.values()):
+        raise AnalysisBroken('the string table key (stringdecl: mapkey(&key, expr->u.string.data, ...)) was not found')
+    released = {}
+    nfree = 0
+    for fn in prog.all_funcs():
+        for c in walk(fn):
+            if c.get('kind') != 'CallExpr' or callee_name(c) not in ('free', 'realloc', 'xreallocarray'): continue
+            nfree += 1
+            a = unwrap_all(children(c)[1])
+            if a.get('kind') == 'MemberExpr' and memkey(a) in borrowed:
+                released.setdefault(memkey(a), []).append('%s:%s %s()' % (fn['_file'], c.get('line') or fn.get('line'), fn['name']))
+    if nfree < 10:
+        raise AnalysisBroken('only %d free/realloc call sites seen' % nfree)
+    for mid, (where, fname, mname) in sorted(borrowed.items(), key=lambda kv: kv[1]):
+        r.instance(mid not in released, 'key-lifetime:%s:.%s' % (fname, mname), where,
+                   'the member `%s` is entered as a table key in %s() and the same member is released at %s: the table then compares keys against freed memory, and which literals/names are found depends on heap reuse' % (mname, fname, ', '.join(released.get(mid, []))))
+    r.samples.append('%d free/realloc call sites inspected' % nfree)
+    r.exhaustive = True
+
+
 def rule_numbering(chk, prog, tier):
     r = chk.rule('C20.d', 'every id that is printed comes from a deterministic counter: a static local incremented per creation, or the per-function lastid', floor=4)
     for fn in prog.all_funcs():
@@ -290,3 +326,4 @@ def run(chk, tier):
     chk.guard('C20.e', lambda: rule_constructors(chk, prog, tier))
     chk.guard('C20.f', lambda: rule_routes(chk, prog, tier))
     chk.guard('C20.g', lambda: rule_unsequenced(chk, prog, tier))
+    chk.guard('C20.h', lambda: rule_key_lifetime(chk, prog, tier))
